@@ -10,6 +10,30 @@ CONF = {
 }
 
 
+def routing_families(prop, tier, seed, mc):
+    import random
+    rows, st = core.tlc_export('MC_Routing', 'MC_Routing.cfg', workers=1, timeout=900)
+    if st.get('distinct', 0) != len(rows):
+        raise core.ToolError('MC_Routing: table export incomplete or TableOK violated')
+    mc.append(st)
+    rnd = random.Random(seed)
+    disp = [r for r in rows if r['dispatches']]
+    rest = [r for r in rows if not r['dispatches']]
+    rnd.shuffle(disp)
+    rnd.shuffle(rest)
+    if tier != 'thorough':
+        disp, rest = disp[:1500], rest[:3500]
+    stims = [{'class': 'tlc_table', 'reg': r['reg'], 'path': r['path'], 'via': 'builder' if i % 2 else 'routes'} for i, r in enumerate(disp + rest)]
+    return [('routing_table', stims)]
+
+
+CONF['C10'] = dict(lab='routing', trace='Trace_Routing', gens=[], extra=routing_families,
+                   assumptions=['five generated services (a.S, a.S2, S, a.b.S, a.s) x three methods stand for all name shapes: shared prefixes, no package, nested package, case variants',
+                                'every subset is registered in up to three orders (ascending, descending, rotated), through Routes::add_service and RoutesBuilder',
+                                'paths that http::Uri refuses to parse never reach tonic and are counted, not judged'],
+                   checker='tlc MC_Routing.cfg (22 644-point table); vh routing; tlc Trace_Routing.cfg')
+
+
 def _filter(prop):
     return lambda c: c.startswith(prop + '.') or c in ('NoPanic', 'NoHang')
 
@@ -23,6 +47,7 @@ def check(prop, tier, seed, extra_families=None, mc=None):
     mc = mc or []
     tag = f'{prop}_{tier}'
     fams = [(lab, simple.gen(lab, seed + off, tier, tag)) for lab, off in cf['gens']]
+    extra_families = extra_families or cf.get('extra')
     if extra_families:
         fams += extra_families(prop, tier, seed, mc)
     for label, stims in fams:
